@@ -295,7 +295,7 @@ Definition new_names (s:st) (n:namerec) (es:list dirent) : res (list Z * option 
   let disp := sfn_display sfn in
   (* _sfn != dirname.upper() or (_sfn != dirname and preserve_case) *)
   if negb (opt_eqb (n_oem_up n) disp) || (negb (opt_eqb (n_oem n) disp) && s_pc s) then
-    if n_conform n then Err EINVAL
+    if n_conform n && opt_eqb (n_oem n) disp then Err EINVAL
     else if 255 <? lenZ (n_u n) then Err ENAMETOOLONG
     else Ok (sfn, Some (make_lfn (n_u n) sfn))
   else Ok (sfn, None).
@@ -504,7 +504,11 @@ Definition h_write_raw (s:st) (h:handle) (e:dirent) (b:list Z) : res (st * handl
   do s3 <- update_entry s2 h (fun x => set_size (if fresh then set_cluster x cpos else x) newsize);
   Ok (s3, h').
 Definition h_write (s:st) (h:handle) (b:list Z) : res (st * handle) :=
-  do e <- find_in_dir s h; h_write_raw s h e b.
+  do e <- find_in_dir s h;
+  if negb (h_writing h) || is_readonly e || s_ro s then Err IOERR else
+  if lenZ b =? 0 then Ok (s, h) else
+  do h' <- (if h_appending h then h_seek s h e 0 2 else Ok h);
+  h_write_raw s h' e b.
 
 (** [truncate(size)]; [None] = current position *)
 Definition h_truncate (s:st) (h:handle) (size:option Z) : res (st * handle) :=
